@@ -32,9 +32,13 @@ fn eval_tcp_throughput_inv(rtt: f64, target_rate_bps: u32) -> f64 {
 
     let mut a = 0.0;
     let mut b = 1.0;
+    let mut c = 0.5;
 
-    loop {
-        let c = (b + a)/2.0;
+    // The interval is halved each round, so 64 rounds exhaust the resolution of an f64. The
+    // target cannot be bracketed when it lies below the rate produced by a loss rate of 1.0, or
+    // when the rates on either side of a jump straddle it; the closest loss rate is used then.
+    for _ in 0 .. 64 {
+        c = (b + a)/2.0;
 
         let rate = eval_tcp_throughput(rtt, c);
 
@@ -56,6 +60,8 @@ fn eval_tcp_throughput_inv(rtt: f64, target_rate_bps: u32) -> f64 {
             return c;
         }
     }
+
+    return c;
 }
 
 #[derive(Debug,PartialEq)]
